@@ -287,3 +287,73 @@ Lemma leaky_state_changes_output :
   let outs := snd (run_history (conversion_leaky (fun l => l)) ps0 [witness_input; witness_input]) in
   nth 0 outs (Err EFuel) <> nth 1 outs (Err EFuel).
 Proof. vm_compute. discriminate. Qed.
+
+(* ---- with the upstream phases (C18/Upstream.v): counters new_cell_key /
+   new_surf_key, cell_transform cache and dic_surf_t4 order of the TRCL,
+   lattice and FILL phases ---- *)
+From T4V Require Import C18.Upstream.
+
+Lemma full_fresh_state : forall order fs1 fs2 x,
+  snd (full_conversion order fs1 x) = snd (full_conversion order fs2 x).
+Proof.
+  intros order fs1 fs2 [u inp]. unfold full_conversion.
+  destruct (upstream u) as [[ck items]|e]; [|reflexivity].
+  pose proof (run_fresh_state order (f_down fs1) (f_down fs2) (with_upstream inp ck items)) as H.
+  destruct (conversion order (f_down fs1) _) as [p1 o1].
+  destruct (conversion order (f_down fs2) _) as [p2 o2]. exact H.
+Qed.
+
+Lemma full_history_outputs : forall order hist fs,
+  snd (run_full_history order fs hist)
+  = map (fun x => snd (full_conversion order fs0 x)) hist.
+Proof.
+  intros order hist. induction hist as [|x r IH]; intros fs; [reflexivity|].
+  cbn [run_full_history map].
+  destruct (full_conversion order fs x) as [fs1 out] eqn:E1.
+  specialize (IH fs1).
+  destruct (run_full_history order fs1 r) as [fs2 outs] eqn:E2.
+  cbn [snd] in *. rewrite <- IH. f_equal.
+  change out with (snd (fs1, out)). rewrite <- E1. apply full_fresh_state.
+Qed.
+
+Lemma full_history_independent : forall order hist fs x,
+  last (snd (run_full_history order fs (hist ++ [x]))) (Err EFuel)
+  = snd (full_conversion order fs0 x).
+Proof.
+  intros order hist fs x. rewrite full_history_outputs, map_app. cbn [map]. apply last_last.
+Qed.
+
+Lemma full_order_irrelevant : forall order1 order2 fs x,
+  set_preserving order1 -> set_preserving order2 ->
+  full_conversion order1 fs x = full_conversion order2 fs x.
+Proof.
+  intros o1 o2 fs [u inp] H1 H2. unfold full_conversion.
+  destruct (upstream u) as [[ck items]|e]; [|reflexivity].
+  rewrite (conversion_order_irrelevant o1 o2 _ _ H1 H2). reflexivity.
+Qed.
+
+Lemma full_deterministic_model : forall order1 order2 hist1 hist2 fs1 fs2 x,
+  set_preserving order1 -> set_preserving order2 ->
+  last (snd (run_full_history order1 fs1 (hist1 ++ [x]))) (Err EFuel)
+  = last (snd (run_full_history order2 fs2 (hist2 ++ [x]))) (Err EFuel).
+Proof.
+  intros o1 o2 h1 h2 fs1 fs2 x H1 H2. rewrite !full_history_independent.
+  rewrite (full_order_irrelevant o1 o2 fs0 x H1 H2). reflexivity.
+Qed.
+
+(* contrast: the upstream state is output-relevant too.  Started from the state
+   a previous run of the same deck left behind (cell_transform cache, counters),
+   the upstream phases do not give what a fresh CellConversion gives. *)
+Definition witness_uinput : uinput :=
+  mkUIn [1; 2] [(1, [1])] [[1]] [UCT 1 1 true [(1, GSurf (-1) None)] 4].
+
+Lemma upstream_state_relevant :
+  (exists r, upstream witness_uinput = Ok r) /\
+  forall st', run_ops (fresh_ustate witness_uinput) (ui_ops witness_uinput) = Ok st' ->
+    upstream_from (mkU (u_ck st') (u_sk st') (u_cache st') (ui_items0 witness_uinput) []
+                       (ui_shapes witness_uinput)) witness_uinput
+    <> upstream witness_uinput.
+Proof.
+  split; [eexists; vm_compute; reflexivity|].
+  intros st' H. vm_compute in H. inversion H; subst. vm_compute. discriminate.
+Qed.
